@@ -222,6 +222,23 @@ CLAIMED["C11"] = dict(
     technique="Lean 4 proof of the frame property of the package-level save + differential correspondence on abstract packages + member-by-member oracle",
     design="§5 C11")
 
+CLAIMED["C07"] = dict(
+    text=("Lean theorems by induction over the list of rounds (all documents, all histories): C07_accounting (every round "
+          "reports applied + skipped = its number of requests), C07_ids_fresh_every_round (in every document a history "
+          "reaches, the ids a new session hands out exceed every numeric revision id present — input's and earlier "
+          "rounds', any author, main part and reachable headers/footers), C07_pending_resolvable, C07_accept_all_clean; the "
+          "single-step theorems of C01/C06/C08/C09/C10 hold for every document, hence for every reached one. Model: "
+          "Adeu.Doc.runHistory = fold of stepDoc (a new session opened on the saved document of the previous round). "
+          "Correspondence: every round of every real history vs stepDoc on the independently read reached document; "
+          "histories whose edits are addressed by offset (no comments) as a whole vs runHistory (counts per round, final "
+          "document). Oracle per round relative to the document before it: reversibility, accepted text == string "
+          "replacement, counts, only the addressed change, replies threaded, package validity with unique ids; at the end "
+          "every pending id is accepted individually and the final accepted text equals the replay on plain strings. "
+          "Random histories (2..6 rounds, authors A/B) and every sequence of 2..3 rounds over the operation alphabet."),
+    note=NOTE_COMMON + "edits of a history address text outside pending insertions and are single-line; composition of the single-step contracts is by oracle + correspondence (partial).",
+    technique="Lean 4 proof by induction over histories (accounting, id freshness on every reached document) + round-by-round and whole-history differential correspondence + per-round oracles",
+    design="§5 C07")
+
 PENDING = {
 }
 
